@@ -24,14 +24,14 @@ pub fn run_seed(seed: u64, prop: &str, tier: Tier, index: u64) -> u64 {
 /// number of runs per property and tier (fixed: the batch never depends on speed or worker count)
 pub fn run_count(prop: &str, tier: Tier) -> u64 {
     let (q, t) = match prop {
-        "C01" => (3000, 30000),
+        "C01" => (5000, 30000),
         "C02" => (12000, 120000),
-        "C03" => (10000, 100000),
+        "C03" => (14000, 100000),
         "C10" => (9000, 90000),
         "C11" => (16000, 160000),
         "C12" => (16000, 160000),
         "C13" => (12000, 120000),
-        "C14" => (2500, 20000),
+        "C14" => (4000, 20000),
         "C17" => (10000, 100000),
         "C18" => (14000, 140000),
         "C20" => (16000, 160000),
